@@ -18,17 +18,6 @@ def g_no_alias_deps(h):
     return all(all(s["nodes"][d]["k"] == "t" for d in n["deps"]) for s in snaps_of(h) for n in s["nodes"] if n["k"] == "t")
 
 
-def g_no_nocache_multiout_dep(h):
-    for s in snaps_of(h):
-        for n in s["nodes"]:
-            if n["k"] == "t":
-                for d in n["deps"]:
-                    dt = s["nodes"][bl.resolve(s["nodes"], d)]
-                    if dt.get("nocache") and len(dt["outs"]) >= 2:
-                        return False
-    return True
-
-
 def g_no_nocache(h):
     return all(not n.get("nocache") for s in snaps_of(h) for n in s["nodes"] if n["k"] == "t")
 
@@ -36,10 +25,6 @@ def g_no_nocache(h):
 def g_no_subdir_file_restore(h):
     """file_parent guard: no file output lives in a sub-directory that may be missing at restore time"""
     return all("/" not in p for s in snaps_of(h) for n in s["nodes"] if n["k"] == "t" for k, p in n["outs"] if k == "file")
-
-
-def g_cache_never_disabled(h):
-    return all(o[1]["cache"] for o in h.ops if o[0] == "B")
 
 
 def g_no_check_destroyed(h):
